@@ -199,6 +199,11 @@ func writeFaults(v valueSpec, idx int) {
 
 func readFaults(data []byte, label string) {
 	exp, perr := refsmf.Parse(data, refsmf.Tolerant)
+	if perr == nil && (int(exp.NTrks) != bytes.Count(data, []byte("MTrk")) || exp.NTrks == 0) {
+		// a header that does not match the chunks: what the result should be
+		// without a fault is C05's business, only the fault clause is judged here
+		perr = fmt.Errorf("track count does not match")
+	}
 	for k := 0; k <= len(data); k++ {
 		fr := &faultio.FailReader{Data: data, At: k}
 		var s *smf.SMF
@@ -246,6 +251,18 @@ func genFiles() [][]byte {
 		}
 		f, _ := smfgen.File(shapes[(i*7)%len(shapes)], body, evs)
 		out = append(out, f)
+		if i%4 == 0 {
+			// the same bytes with a header that declares no track at all, or one too many
+			for _, d := range []int{-1, +1} {
+				g := append([]byte{}, f...)
+				if d < 0 {
+					g[10], g[11] = 0, 0
+				} else {
+					g[11]++
+				}
+				out = append(out, g)
+			}
+		}
 	}
 	return out
 }
